@@ -92,6 +92,18 @@ def replay_sutton(model, case="no contaminants", fluid="dry gas"):
                   else (164.3 + 357.7 * g - 67.7 * g * g, 744 - 125.4 * g + 5.9 * g * g))
         bad = abs(t + 459.67 - wt) > 1e-9 * wt or abs(p - wp) > 1e-9 * wp
         return bad, {"what": f"no contaminants: ({t + 459.67!r} R, {p!r}) vs hydrocarbon-only Sutton ({wt!r}, {wp!r})", "inputs": m}
+    if case == "kept":
+        # the composition of gas A is built, then the one of gas B; A's composition still describes gas A
+        m2 = model_floats(model, ["N2b", "H2Sb", "CO2b"], default=dict(N2b=0.1, H2Sb=0.15, CO2b=0.0))
+        if abs(m2["N2b"] - m["N2"]) + abs(m2["H2Sb"] - m["H2S"]) + abs(m2["CO2b"] - m["CO2"]) < 0.01:
+            m2 = dict(N2b=min(m["N2"] + 0.08, 0.3), H2Sb=min(m["H2S"] + 0.1, 0.3), CO2b=m["CO2"] / 2)
+        props_a = gas.make_nonhydrocarbon_properties(m["N2"], m["H2S"], m["CO2"])
+        first = gas.pseudocritical_point_Sutton(m["sg"], props_a, fluid)
+        gas.make_nonhydrocarbon_properties(m2["N2b"], m2["H2Sb"], m2["CO2b"])
+        again = gas.pseudocritical_point_Sutton(m["sg"], props_a, fluid)
+        bad = any(abs(x - y) > 1e-12 * abs(x) for x, y in zip(first, again))
+        return bad, {"what": f"pseudocritical point of gas A from its composition array: {first!r}; from the same array after the composition of another gas "
+                             f"({m2}) was built: {again!r}", "inputs": dict(m, **m2)}
     a = gas.pseudocritical_point_Sutton(m["sg"], gas.make_nonhydrocarbon_properties(m["N2"], m["H2S"], m["CO2"]), fluid)
     b = gas.pseudocritical_point_Sutton(m["sg"], gas.make_nonhydrocarbon_properties(m["N2"], m["H2S"], m["CO2"], ("Helium", 0.0, 4.0, 9.4, 33.0)), fluid)
     bad = any(abs(x - y) > 1e-9 * abs(x) for x, y in zip(a, b))
@@ -395,6 +407,22 @@ def job_sutton(job):
             job.prove(f"sutton[{fluid}]/no contaminants == hydrocarbon-only correlation[path{k}]",
                       pr.pc + [T.b_or(not_close(t + K("459.67"), hc[fluid][0]), not_close(p, hc[fluid][1]))], bound="gravity 0.55..1.2",
                       replay=(replay_sutton, {"case": "no contaminants", "fluid": fluid}))
+        # two gases in one process: the composition array built for gas A still describes gas A after gas B's was built
+        vb, domb = box(None, N2b=(0, "0.2"), H2Sb=("0.0001", "0.2"), CO2b=(0, "0.2"))
+
+        def kept():
+            props_a = gas.make_nonhydrocarbon_properties(vs["N2"], vs["H2S"], vs["CO2"])
+            first = gas.pseudocritical_point_Sutton(g, props_a, fluid)
+            gas.make_nonhydrocarbon_properties(vb["N2b"], vb["H2Sb"], vb["CO2b"])
+            return first, gas.pseudocritical_point_Sutton(g, props_a, fluid)
+        for k, pr in enumerate(paths(job, kept, dom + domb, max_paths=64)):
+            if pr.exc is not None:
+                job.errors.append(f"sutton[{fluid}] second composition raised {pr.exc!r}")
+                continue
+            (t1, p1), (t2, p2) = pr.value
+            job.prove(f"sutton[{fluid}]/a composition array still describes its gas after another gas's was built[path{k}]",
+                      pr.pc + [T.b_or(not_close(t1, t2, abs_tol=Fraction(0)), not_close(p1, p2, abs_tol=Fraction(0)))], bound="two composition boxes",
+                      replay=(replay_sutton, {"case": "kept", "fluid": fluid}))
         extra = ("Helium", Q(0), Q(4), K("9.4"), K("33.0"))
 
         def both():
@@ -445,7 +473,7 @@ def _jobs_extra():
 
 
 # concrete replays run on the real code when the changed code uses something the engine does not model (harness.finish)
-FALLBACK = [(replay_facade, {"method": m_}) for m_ in ("water_FVF", "water_viscosity", "gas_FVF", "gas_viscosity", "oil_FVF", "oil_viscosity", "pressure_bubblepoint")] + [(replay_facade, {"method": "oil_viscosity", "reassigned": "used"}), (replay_facade, {"method": "gas_viscosity", "container": "series"}), (replay_grid, {}), (replay_sutton, {}), (replay_unknown_fluid, {})]
+FALLBACK = [(replay_sutton, {"case": "kept"})] + [(replay_facade, {"method": m_}) for m_ in ("water_FVF", "water_viscosity", "gas_FVF", "gas_viscosity", "oil_FVF", "oil_viscosity", "pressure_bubblepoint")] + [(replay_facade, {"method": "oil_viscosity", "reassigned": "used"}), (replay_facade, {"method": "gas_viscosity", "container": "series"}), (replay_grid, {}), (replay_sutton, {}), (replay_unknown_fluid, {})]
 
 
 def jobs(tier):
